@@ -115,9 +115,11 @@ def handle (j : Json) : Except String Json := do
         ("below", ratsToJson (xs.map fun x => sg x * pow2 (po2BelowExp c (mag x)))),
         ("above", ratsToJson (xs.map fun x => sg x * pow2 (po2AboveExp c (mag x)))),
         ("frac", ratsToJson (xs.map fun x => po2Frac c (mag x))),
-        ("clipped", ratsToJson (xs.map fun x => sg x * yf x)),
+        ("clipped", ratsToJson (xs.map fun x =>
+            sg x * (if mag x < epsK then pow2 c.minExp else clip (yf x) (pow2 c.minExp) (pow2 c.maxExp)))),
         ("xcode", boolsToJson (xs.map fun x => po2IsPow c (mag x) && decide (c.minExp ≤ po2Floor c (mag x))
-                                      && decide (po2Floor c (mag x) ≤ c.maxExp) && decide (epsK ≤ mag x))),
+                                      && decide (po2Floor c (mag x) ≤ c.maxExp) && decide (epsK ≤ mag x)
+                                      && decide (yf x = mag x))),
         ("bracket_ok", boolsToJson (xs.map fun x =>
             let l := po2Floor c (mag x); decide (pow2 l ≤ yf x) && decide (yf x < pow2 (l + 1)))),
         ("h_ok", boolsToJson (xs.map fun x => po2H (yf x) (roundLog2 (yf x + epsK)))),
